@@ -278,6 +278,28 @@ Theorem C09_r_close_post_msgs_once : forall c ls s, run step (init c) ls = Some 
 Proof. exact close_post_msgs. Qed.
 Print Assumptions C09_r_close_post_msgs_once.
 
+(* (5) a generation is joined before the group moves on — ALSO when it ended on its own.  The
+       self-termination path is in the model: a failed heartbeat (LHbTick f false) or any returning
+       function puts the function into NRet, its exit handler (LFnHandler) closes gen.done, run
+       takes <-gen.done (LGWaitDone, why = WEnded) and calls gen.close() (LGClose: closing done is
+       then a no-op) which still waits for every ACCOUNTED function (GCloseWait until acc_exited).
+       Hence: the generation's coordinator connection is closed (nextGeneration's deferred
+       conn.Close(): g_conn = false), and a new JoinGroup can be sent (no current generation), only
+       when every accounted function of it has run its exit handler; while one has not,
+       gen.close() cannot return.  With C09_r_close_post_registry: nothing accounted outlives
+       Close.  The abstraction "gen.close() waits" is C15_accounting over Model/ConsumerGroup.v; that
+       Generation.close has ONE way out (a single section of g.lock followed by <-g.joined) is
+       skeleton assumption R19 (reader_assumptions, checked against /repo's current source by
+       C09_reader_skeleton_assumptions below). *)
+Theorem C09_r_generation_joined : forall c ls s, run step (init c) ls = Some s ->
+  (forall k g, nth_error (gens s) k = Some g -> g_conn g = false ->
+     acc_exited k s = true /\ g_done g = true /\ cur_gen (gph s) <> Some k) /\
+  (cur_gen (gph s) = None -> forall k g, nth_error (gens s) k = Some g ->
+     acc_exited k s = true /\ g_conn g = false /\ g_done g = true) /\
+  (forall k w, gph s = GCloseWait k w -> acc_exited k s = false -> step s LGJoined = None).
+Proof. exact generation_joined_proof. Qed.
+Print Assumptions C09_r_generation_joined.
+
 (* ---- regressions of the three former defects (schedules in Model/Lifecycle.v): a FetchMessage
    after Close with a message still buffered returns io.EOF and leaves the buffer alone; a
    CommitMessages after Close returns io.ErrClosedPipe and r.commits stays empty; after a failed
